@@ -208,11 +208,17 @@ def c05(r):
             break
     # play() leaves the process un-paused and cancels a pause that has not yet taken effect
     unpaused_since = None
+    listener_pause_at = {c['idx'] for c in r.calls if c.get('from_listener') and c['op'] == 'pause'}
+    listener_play_at = {c['idx'] for c in r.calls if c.get('from_listener') and c['op'] == 'play'}
     for i, op in enumerate(r.ops):
         if op == 'play':
             unpaused_since = i
         elif op == 'pause':
             unpaused_since = None
+        if i in listener_pause_at:          # a listener requested a pause during this op
+            unpaused_since = None
+        elif i in listener_play_at and unpaused_since is None:
+            unpaused_since = i + 1 if i + 1 < len(r.ops) else None
         if unpaused_since is not None and r.paused_at[i] and r.snapshots[i] is None:
             out.append(F('c05-paused-after-play', 'play() leaves the process un-paused', dict(play_at=unpaused_since, at=i, ops=r.ops[:i + 1])))
             break
